@@ -306,6 +306,28 @@ def run(ctx):
             else:
                 r.ok(f'{f.name}: no path returns holding an acquired lock', loc=ret.loc, func=f.name)
     r.require_min(2, 'returns of locking functions')
+    # ---------------- R18i the library's locks are taken with blocking acquires
+    r = ctx.rule('R18i', 'the registry lock and the GF table mutex are acquired with blocking calls only (no try / timed variants)',
+                 'a try-lock that fails under contention turns into "unknown descriptor" / a refused call: results differ from the same calls run one after another')
+    ntry = 0
+    nacq = 0
+    for fn in P.fns.values():
+        if re.search(r'jerasure|shss|phazrio|alg_sig', fn.mod.src):
+            continue
+        for i in fn.insts():
+            if i.op != 'call' or not i.callee:
+                continue
+            if re.match(r'^@pthread_(rwlock|mutex)_(try|timed)', i.callee):
+                ntry += 1
+                r.fail(f'{fn.name}: {i.callee[1:]} at line {i.line}', func=fn.name, sig=f'non-blocking acquire {i.callee[1:]}', loc=i.loc,
+                       msg=f'{fn.name} takes a library lock with {i.callee[1:]}: when another thread holds the lock the call fails and the failure is reported to '
+                           'the caller as an ordinary error (unknown descriptor, refused operation) although the same call succeeds when run alone')
+            elif i.callee in lockset.ACQ:
+                nacq += 1
+    if not ntry:
+        r.ok(f'{nacq} lock acquisitions, all blocking', loc='src')
+    r.require_min(1)
+
     # ---------------- R18h tables shared by all instances of a shape are read-only at run time
     r = ctx.rule('R18h', 'the flat-XOR equation tables (what xor_code_t.parity_bms / data_bms point at) are never written at run time',
                  'every instance of a shape points at the same static table: a create that rewrites it races with the decodes of other threads\' instances')
